@@ -36,6 +36,8 @@ pub fn check(tier: Tier) -> Check {
     parts.push(Part::new("C14/streams", json!({"depth": tier.pick(5, 6)}), tier.pick(1, 2), tier.pick(40, 400)));
     // a long backlog (127 .. 1025 unread messages) in a stream that is only read after the drop
     parts.push(Part::new("C14/backlog", json!({}), 0, 60));
+    // a stream across two connections of one Context, then the drop
+    parts.push(Part::new("C14/reconnect-streams", json!({}), 0, 60));
     // more than 65 535 identifier-bearing operations after the drop
     parts.push(Part::new("C14/many-after-drop", json!({}), 0, 120));
     // requests made before a connection attempt that is refused; then the Context is dropped
@@ -225,7 +227,61 @@ fn many_after_drop(name: String, params: Value) -> Scenario {
     })
 }
 
+/// A stream that lives through two connections of one Context (the first ended by the server's graceful
+/// DISCONNECT, by end-of-stream or by the user's DISCONNECT; no resume): it yields what it received on
+/// both, and ends only when the Context is gone.
+fn reconnect_streams(name: String, params: Value) -> Scenario {
+    Box::new(move |chz, ex| {
+        let ending = chz.choose(3);
+        let expiry = [None, Some(100u32)][chz.choose(2)];
+        let read_between = chz.choose(2) == 1;
+        let mut sys = Sys::new("C14", &name, chz);
+        sys.params = params.clone();
+        sys.m.check_client_acks = false;
+        sys.auto_exit = false;
+        sys.base_connect.session_expiry = expiry;
+        sys.bring_up(vec![]);
+        sys.apply(Ev::Start(OpSpec::Subscribe(SubscribeSpec::simple("s/a"))));
+        if sys.dead {
+            return sys.report(ex, &[]);
+        }
+        let ack = sys.ack_for(0, 0, "").unwrap();
+        sys.apply(Ev::Deliver(ack));
+        sys.apply(Ev::TakeStream(0));
+        let sid = sys.m.subs[0].sub_id.unwrap();
+        if !read_between {
+            sys.apply(Ev::Hold(crate::world::Tid::Stream(0)));
+        }
+        sys.apply(Ev::Deliver(inbound(0, false, 0, &[sid], "a")));
+        match ending {
+            0 => sys.apply(Ev::Deliver(SPacket::Disconnect { reason: 0, props: vec![], form: 0 })),
+            1 => sys.apply(Ev::Eof),
+            _ => sys.apply(Ev::Start(OpSpec::Disconnect(DisconnectSpec::default()))),
+        }
+        if sys.dead {
+            return sys.report(ex, &[]);
+        }
+        sys.events.push("Reconnect".into());
+        sys.classes.push("Reconnect".into());
+        sys.w.new_wire();
+        sys.m.new_wire();
+        let spec = sys.base_connect.clone();
+        sys.connect_with(spec, SPacket::Connack { session_present: false, reason: 0, props: vec![] });
+        if !sys.dead {
+            sys.start_run();
+        }
+        sys.apply(Ev::Deliver(inbound(0, false, 0, &[sid], "b")));
+        sys.apply(Ev::Deliver(inbound(1, false, 5, &[sid], "c")));
+        sys.apply(Ev::DropCtx);
+        sys.finish();
+        sys.report(ex, &["stream-end"]);
+    })
+}
+
 pub fn scenario(name: &str, params: &Value) -> Scenario {
+    if name == "C14/reconnect-streams" {
+        return reconnect_streams(name.to_string(), params.clone());
+    }
     if name == "C14/many-after-drop" {
         return many_after_drop(name.to_string(), params.clone());
     }
